@@ -415,6 +415,7 @@ func main() {
 	for i := 0; i < 2+*nHand/10; i++ {
 		sessionReplayCase(r.Fork())
 		reflectionCase(r.Fork(), w2)
+		agedConnectionCase(r.Fork())
 	}
 	w2.Close(st)
 	fmt.Printf("c17: %d cases; faults %v; handshake %v\n", st.Cases, st.Faults, st.Hand)
